@@ -310,7 +310,7 @@ pub fn property() -> Property {
                fine grid around linfa's 1e-5 equal-value guard, consecutive floats f32>=128 / f64>=2^37 whose midpoint rounds onto a sample), \
                2..=6 classes as usize/bool/String, labels random or a noisy function of the features, optional dyadic weights, both criteria, \
                max_depth None/0/1/2/3/5(/12), min_weight_split 1/2/5/10, min_weight_leaf 0.5/1/2/5, min_impurity_decrease 1e-5/0.01/0.2, \
-               plus query rows on half steps; exhaustive one-feature strata (3 values x 3 labels, n<=4; 4 consecutive floats x 2 labels, n<=4). \
+               plus query rows on half steps; exhaustive one-feature strata (3 grid values x 3 labels, n<=5 quick / 6 thorough; 4 consecutive floats at 200 x 2 labels, n<=5/6; 6 consecutive floats across the 256 binade x 2 labels, n<=4/5; hyper-parameters cycle through a fixed table). \
                Non-trivial = fitted tree has >= 2 split nodes, or a reached leaf has a weighted tie for the mode, or the case contains a \
                consecutive-float column above the guard; distinct = distinct canonical JSON of the case",
         assumptions: vec![
@@ -325,25 +325,25 @@ pub fn property() -> Property {
             "trusted base: ndarray, the harness' own routing/impurity code".into(),
         ],
         subs: vec![
-            prop_sub("grid", 120000, 1500000, |t: Tier| case_strategy(Family::Grid, t), check)
-                .chunks(16)
+            prop_sub("grid", 400000, 3000000, |t: Tier| case_strategy(Family::Grid, t), check)
+                .chunks(32)
                 .require(&["splits_2plus", "leaf_weighted_tie", "duplicates_conflicting_labels", "max_depth_none", "max_depth_0"]),
-            prop_sub("adjacent_finite", 40000, 500000, |t: Tier| case_strategy(Family::AdjFinite, t), check)
+            prop_sub("adjacent_finite", 150000, 1000000, |t: Tier| case_strategy(Family::AdjFinite, t), check)
                 .chunks(16)
                 .require(&["adjacent_floats", "threshold_equals_training_value"]),
             // max_depth(None) on consecutive floats can recurse without bound inside fit (stack overflow kills
             // the worker): one case per child process, so a crash costs exactly that case
-            prop_sub("adjacent_unbounded", 48, 480, |t: Tier| case_strategy(Family::AdjUnbounded, t), check).chunks(480),
+            prop_sub("adjacent_unbounded", 64, 640, |t: Tier| case_strategy(Family::AdjUnbounded, t), check).chunks(640),
             enum_sub(
                 "enum_grid",
-                |t: Tier| enumerate(Col::Grid { quarters: 4 }, 3, 3, t.pick(4, 5), &[None, Some(1), Some(2), None, Some(0)], true),
+                |t: Tier| enumerate(Col::Grid { quarters: 4 }, 3, 3, t.pick(5, 6), &[None, Some(1), Some(2), None, Some(0)], true),
                 check,
             ),
             enum_sub(
                 "enum_adjacent",
                 |t: Tier| {
-                    let mut v = enumerate(Col::Adj { base: 1 }, 4, 2, t.pick(4, 5), &[Some(3), Some(1), Some(6)], true);
-                    v.extend(enumerate(Col::Adj { base: 2 }, 6, 2, t.pick(3, 4), &[Some(2), Some(4)], true));
+                    let mut v = enumerate(Col::Adj { base: 1 }, 4, 2, t.pick(5, 6), &[Some(3), Some(1), Some(6)], true);
+                    v.extend(enumerate(Col::Adj { base: 2 }, 6, 2, t.pick(4, 5), &[Some(2), Some(4)], true));
                     v
                 },
                 check,
